@@ -658,3 +658,146 @@ func ruleGlobalState(c *Ctx, r *R) {
 			"the package-level variable "+nm+" is "+strings.Join(ws, "; ")+" outside initialisation: state shared by every VM, value and iterator of the process — e.g. decode buffers shared by all `for range` loops over strings make a nested (or called) loop refill the buffer the outer loop is still walking (`for _, x := range \"héy\" { for _, y := range \"01\" {..} }` visits h, '1', y), and two VMs of one host interfere")
 	}
 }
+
+// ALIAS-EXPAND: filtering a slice in place (`out := xs[:0]` and at most one append per element
+// read) is sound: the write position never passes the read position.  The same idiom with an
+// iteration that can append MORE than it reads — a spread `append(out, t.Tokens...)`, or two
+// appends on one path — overwrites elements the loop has not read yet.  In treeSort that
+// loses the declarations that follow a `var ( ... )` group (the next file's import among
+// them: its package is never loaded or initialised) and repeats the group's last member.
+// Decided package-wide: for every `y := x[:0]` (or `x[:k]`) followed by a range over x that
+// appends to y, no path through one iteration appends more than one element.
+func ruleAliasExpand(c *Ctx, r *R) {
+	n := 0
+	for _, name := range c.FuncNames() {
+		fd := c.funcs[name]
+		if fd.Body == nil || strings.HasSuffix(c.Fset.Position(fd.Pos()).Filename, "_test.go") {
+			continue
+		}
+		ast.Inspect(fd.Body, func(m ast.Node) bool {
+			as, ok := m.(*ast.AssignStmt)
+			if !ok || len(as.Lhs) != 1 || len(as.Rhs) != 1 {
+				return true
+			}
+			se, ok := unparen(as.Rhs[0]).(*ast.SliceExpr)
+			if !ok || se.Low != nil && func() bool { v, ok := c.ConstInt(se.Low); return !ok || v != 0 }() {
+				return true
+			}
+			yid, ok := as.Lhs[0].(*ast.Ident)
+			if !ok {
+				return true
+			}
+			y := c.Obj(yid)
+			xsrc := nosp(c.Src(se.X))
+			// the following range over x in the same function
+			ast.Inspect(fd.Body, func(k ast.Node) bool {
+				rs, ok := k.(*ast.RangeStmt)
+				if !ok || rs.Pos() < as.Pos() || nosp(c.Src(rs.X)) != xsrc {
+					return true
+				}
+				// the most elements one pass through the body can append to y
+				var most func(list []ast.Stmt) (int, bool)
+				most = func(list []ast.Stmt) (int, bool) {
+					total, spread := 0, false
+					for _, st := range list {
+						switch x := st.(type) {
+						case *ast.AssignStmt:
+							for i, l := range x.Lhs {
+								if lid, ok := l.(*ast.Ident); ok && c.Obj(lid) == y && i < len(x.Rhs) {
+									if call, ok := unparen(x.Rhs[i]).(*ast.CallExpr); ok && c.CalleeName(call) == "builtin.append" {
+										if call.Ellipsis.IsValid() {
+											spread = true
+										}
+										total += len(call.Args) - 1
+									}
+								}
+							}
+						case *ast.IfStmt:
+							a, sa := most(x.Body.List)
+							b, sb := 0, false
+							switch e := x.Else.(type) {
+							case *ast.BlockStmt:
+								b, sb = most(e.List)
+							case *ast.IfStmt:
+								b, sb = most([]ast.Stmt{e})
+							}
+							// a branch that ends the iteration (continue) does not add to what follows,
+							// but the maximum over paths is what matters: take the larger branch
+							if b > a {
+								a = b
+							}
+							total += a
+							spread = spread || sa || sb
+						case *ast.BlockStmt:
+							a, sa := most(x.List)
+							total += a
+							spread = spread || sa
+						case *ast.SwitchStmt:
+							best := 0
+							for _, cc := range x.Body.List {
+								a, sa := most(cc.(*ast.CaseClause).Body)
+								if a > best {
+									best = a
+								}
+								spread = spread || sa
+							}
+							total += best
+						case *ast.ForStmt, *ast.RangeStmt:
+							// an inner loop that appends to y can append any number
+							inner := false
+							ast.Inspect(x, func(q ast.Node) bool {
+								if ia, ok := q.(*ast.AssignStmt); ok {
+									for _, l := range ia.Lhs {
+										if lid, ok := l.(*ast.Ident); ok && c.Obj(lid) == y {
+											inner = true
+										}
+									}
+								}
+								return true
+							})
+							spread = spread || inner
+						}
+					}
+					return total, spread
+				}
+				// `if cond { y = append(y, a); continue }; y = append(y, b)` is one element per
+				// path: subtract branches that end the iteration
+				total, spread := most(rs.Body.List)
+				if total > 1 && !spread {
+					// recount path-wise for the common guard-and-continue shape
+					perPath := 0
+					for _, st := range rs.Body.List {
+						if ifs, ok := st.(*ast.IfStmt); ok && ifs.Else == nil && terminating(ifs.Body) {
+							continue
+						}
+						a, _ := most([]ast.Stmt{st})
+						perPath += a
+					}
+					worstBranch := 0
+					for _, st := range rs.Body.List {
+						if ifs, ok := st.(*ast.IfStmt); ok && ifs.Else == nil && terminating(ifs.Body) {
+							if a, _ := most(ifs.Body.List); a > worstBranch {
+								worstBranch = a
+							}
+						}
+					}
+					total = perPath
+					if worstBranch > total {
+						total = worstBranch
+					}
+				}
+				if total == 0 && !spread {
+					return true
+				}
+				n++
+				r.check(total <= 1 && !spread, name+" in-place "+yid.Name, c.Pos(as), "at most one element is written per element read",
+					name+" builds "+yid.Name+" in the array of "+c.Src(se.X)+" (`"+yid.Name+" := "+c.Src(as.Rhs[0])+"`) while ranging over it, and one iteration can append more than one element: the write position overtakes the read position and elements that have not been read yet are overwritten — in treeSort the declarations after a `var ( ... )` group are lost (a later file's import with them: its package is never loaded) and the group's last member is repeated")
+				return true
+			})
+			return true
+		})
+	}
+	if n == 0 {
+		r.ok("in-place builds", "no slice is rebuilt in its own array while it is ranged over")
+	}
+}
